@@ -1,9 +1,10 @@
 """C06 — String literals decode to their spec-defined values (DESIGN.md C06)."""
 import re
 
-from ..core import AnchorError, Undecided
+from ..core import AnchorError, Undecided, short
 from ..hirq import callee_path, walk
 from ..patset import Char, Evaluator, char_set
+from ..speceval import Spec
 from ..tables import local_of, strip_expr
 
 CRATES = ["apollo_parser", "apollo_compiler"]
@@ -32,62 +33,70 @@ def rule_esc(prog, rep):
     if accepted != set(ord(c) for c in SPEC):
         rep.finding("C06.ESC", "apollo_parser::lexer::is_escaped_char", "lexer-set", "the lexer accepts escape letters %s; the grammar has %s" % (sorted(map(chr, accepted)), sorted(SPEC)), None)
     fn = prog.fn(r"^apollo_parser::cst::node_ext::unescape_string$")
-    body = prog.hir_body(fn)["body"]
-    ms = [n for n in walk(body) if n.get("k") == "match" and n.get("src") == "normal" and local_of(n["scrut"]) == "c2"]
-    if len(ms) != 1:
-        raise Undecided("unescape_string: expected one `match c2` over the escape letter (found %d)" % len(ms))
-    m = ms[0]
-    # the outer match sends a backslash to this inner match
-    outer = [n for n in walk(body) if n.get("k") == "match" and n.get("src") == "normal" and local_of(n["scrut"]) == "c"]
-    ok_outer = False
-    for o in outer:
-        for arm in o["arms"]:
-            e = {}
-            if ev.bind(arm["pat"], Char(0x5C), e) and any(x is m for x in walk(arm["body"])):
-                ok_outer = True
-    if not ok_outer:
-        rep.finding("C06.ESC", fn.name, "backslash-arm", "the escape-letter match is not reached from the backslash arm", fn.loc())
+    # The decoder's loop: `iter.next()` yields c; after a backslash a second `iter.next()` yields the
+    # escape letter.  The table is read by specialising the loop body's CFG for (c, letter) - see
+    # analyzer/speceval.py - so it does not matter whether the source says `match`, `if c != '\\'
+    # { ..; continue }` or an `else if` chain.
+    nexts = [c for c in fn.live_calls() if re.search(r"Chars<'\w+> as std::iter::Iterator>::next$", c.name)]
+    if len(nexts) < 2:
+        raise Undecided("unescape_string: expected the loop's `iter.next()` and a second one for the escape letter (found %d)" % len(nexts))
+    first = [c for c in nexts if all(fn.dominates(c.block, o.block) for o in nexts)]
+    if len(first) != 1:
+        raise Undecided("unescape_string: no `iter.next()` dominates the others")
+    first = first[0]
+    rest = [c for c in nexts if c is not first]
+    second = [c for c in rest if all(fn.dominates(c.block, o.block) for o in rest)]
+    if len(second) != 1 or len(rest) != 1:
+        raise Undecided("unescape_string: expected exactly one further `iter.next()` for the escape letter (found %d)" % len(rest))
+    second = second[0]
+    d1, d2 = first.dest[0], second.dest[0]
+    PUSH = r"^std::string::String::(push|push_str|insert|insert_str|extend\w*)$|String as std::iter::Extend"
+
+    def row(c, letter):
+        sp = Spec(fn, payloads={(d1, "Some", 0): c, (d2, "Some", 0): letter}, discrs={d1: 1, d2: 1}, effect_re=PUSH, stop_blocks=[first.block])
+        paths = sp.run(first.target)
+        return sorted(set(tuple((n.rsplit("::", 1)[-1], a[1:]) for n, a, _b in eff) for eff, _end in paths))
+
+    # plain characters are copied
+    for c in (0x61, 0x22, 0x75, 0x6E, 0x2F, 0x10FFFF):
+        got = row(c, 0x61)
+        if got != [(("push", (c,)),)]:
+            rep.finding("C06.ESC", fn.name, "plain:%#x" % c, "a character other than backslash (U+%04X) is not copied unchanged: effects %s" % (c, got), fn.loc())
     for letter in sorted(accepted):
         ch = chr(letter)
-        arm_i = None
-        for i, arm in enumerate(m["arms"]):
-            e = {}
-            if arm.get("guard") is not None:
-                raise Undecided("guard in unescape_string's escape match")
-            if ev.bind(arm["pat"], Char(letter), e):
-                arm_i = i
-                break
-        if arm_i is None:
-            rep.finding("C06.ESC", fn.name, "no-arm:" + ch, "escape letter `%s` has no arm" % ch, fn.loc())
-            continue
-        b = strip_expr(m["arms"][arm_i]["body"])
-        pushes = [n for n in walk(b) if n.get("k") == "mcall" and n["m"] == "push" and local_of(n["recv"]) == "output"]
         want = SPEC.get(ch)
-        got = None
-        if len(pushes) == 1:
-            a = strip_expr(pushes[0]["args"][0])
-            if a.get("k") == "path" and local_of(a) == "c2":
-                got = ("same",)
-            elif a.get("k") == "lit" and a.get("t") == "char":
-                got = ("lit", a["v"])
-            elif a.get("k") == "call" and local_of({"k": "path", "res": a.get("callee")}) == "unicode" or (a.get("k") == "call" and a.get("f") and local_of(a["f"]) == "unicode"):
-                got = ("unicode",)
-            elif a.get("k") == "call":
-                got = ("call",)
-        elif not pushes:
-            got = ("nothing",)
+        got = row(0x5C, letter)
         if want is None:
             rep.finding("C06.ESC", fn.name, "extra:" + ch, "the lexer accepts escape `\\%s`, which the grammar does not have" % ch, fn.loc())
-        elif got == want:
-            rep.instance("C06.ESC", "\\%s -> %s" % (ch, "itself" if got == ("same",) else ("U+%04X" % got[1] if got[0] == "lit" else "decoded \\uXXXX")))
+            continue
+        ok = False
+        if len(got) == 1 and len(got[0]) == 1 and got[0][0][0] == "push":
+            v = got[0][0][1][0]
+            if want[0] == "same":
+                ok = v == letter
+            elif want[0] == "lit":
+                ok = v == want[1]
+            else:
+                ok = isinstance(v, str) and "(" in v  # an undetermined value that is the result of a call
+        if ok:
+            rep.instance("C06.ESC", "\\%s -> %s" % (ch, "itself" if want == ("same",) else ("U+%04X" % want[1] if want[0] == "lit" else "decoded \\uXXXX")))
         else:
+            desc = "drops it silently" if got in ([()], []) else "does %s" % (got,)
             rep.finding("C06.ESC", fn.name, "escape:" + ch,
-                        "escape `\\%s` is accepted by the lexer but the decoder %s; the spec value is %s" % (ch, "drops it silently" if got == ("nothing",) else "pushes %s" % (got,), "the character itself" if want == ("same",) else ("U+%04X" % want[1] if want[0] == "lit" else "the code point")), fn.loc(m["arms"][arm_i].get("l")))
-    # unicode(): 4 hex digits folded as (acc << 4) + digit
-    takes = [n for n in walk(body) if n.get("k") == "mcall" and n["m"] == "take"]
+                        "escape `\\%s` is accepted by the lexer but the decoder %s; the spec value is %s" % (ch, desc, "the character itself" if want == ("same",) else ("U+%04X" % want[1] if want[0] == "lit" else "the code point")), fn.loc())
+    # \uXXXX: 4 hex digits folded as (acc << 4) + digit, in unescape_string or a local helper of it
+    bodies = [prog.hir_body(fn)["body"]]
+    for uid in prog.reachable([fn]):
+        g = prog.fns.get(uid)
+        if g is not None and g.uid != fn.uid and g.crate == fn.crate and g.kind in ("fn", "assoc_fn") and g.name.startswith("apollo_parser::cst::node_ext::"):
+            hb = prog.hir_body(g)
+            if hb:
+                bodies.append(hb["body"])
+    nodes = [n for b in bodies for n in walk(b)]
+    takes = [n for n in nodes if n.get("k") == "mcall" and n["m"] == "take"]
     ok = any(strip_expr(t["args"][0]).get("v") == 4 for t in takes)
-    shl = [n for n in walk(body) if n.get("k") == "bin" and n["op"] == "<<" and strip_expr(n["b"]).get("v") == 4]
-    radix = [n for n in walk(body) if n.get("k") == "mcall" and n["m"] == "to_digit" and strip_expr(n["args"][0]).get("v") == 16]
+    shl = [n for n in nodes if n.get("k") == "bin" and n["op"] == "<<" and strip_expr(n["b"]).get("v") == 4]
+    radix = [n for n in nodes if n.get("k") == "mcall" and n["m"] == "to_digit" and strip_expr(n["args"][0]).get("v") == 16]
     if ok and shl and radix:
         rep.instance("C06.ESC", "\\uXXXX: take(4) hex digits, value = fold (acc << 4) + to_digit(16)")
     else:
